@@ -57,7 +57,7 @@ Proof.
        pose proof (compress_generic_nodict_sound c s n cp od t sm ac Hs ltac:(discriminate) Hacc
                      ltac:(cbn; lia) ltac:(cbn; lia) (tab_ok_init t sm) (ttype_for_u16 n)
                      ltac:(intros Et _; left; pose proof (ttype_for_u16 _ Et); cbn; unfold LZ4_64Klimit, MFLIMIT in *; lia)) as H
-     end; cbv zeta in H; intros Hr; destruct H as (_ & _ & H); destruct (H Hr) as (_ & _ & C);
+     end; cbv zeta in H; intros Hr; destruct H as (_ & _ & H); destruct (H Hr) as (_ & _ & C & _);
      destruct (Z.eq_dec n 0) as [->|Hn0]; [|apply C; exact Hn0];
      unfold compress_generic_nodict; cbn;
      repeat match goal with |- context [if ?c then _ else _] => destruct c end; reflexivity).
